@@ -10,6 +10,7 @@ CHECKS=${*:-"C01 C02 C03 C04 C05 C06 C07 C08 C09 C10 C11 C12 C13 C15 C16 C17 C18
 OUT=/verif/seeded/$NAME
 mkdir -p "$OUT"
 cp "$WT/seeded/patch.diff" "$OUT/patch.diff"
+[ -f "$WT/seeded/patch_rebased.diff" ] && cp "$WT/seeded/patch_rebased.diff" "$OUT/patch_rebased.diff"
 cp "$WT/seeded/meta.json" "$OUT/agent_meta.json" 2>/dev/null
 for f in "$WT"/seeded/*.rs; do [ -f "$f" ] && cp "$f" "$OUT/"; done
 cd "$WT" || exit 2
@@ -27,7 +28,9 @@ git apply "$OUT/patch.diff"
 echo "suite_with_change_exit=$SUITE demo_with_change_exit=$WITH demo_without_change_exit=$WITHOUT" | tee -a "$OUT/confirm.log"
 cd /verif
 if [ -n "$(git -C /repo status --porcelain)" ]; then echo "/repo not clean"; exit 2; fi
-git -C /repo apply "$OUT/patch.diff" || exit 2
+# a patch written against an older tree is applied in its re-based form (same change, moved context)
+APPLY="$OUT/patch.diff"; [ -f "$OUT/patch_rebased.diff" ] && APPLY="$OUT/patch_rebased.diff"
+git -C /repo apply "$APPLY" || exit 2
 RES=""
 for c in $CHECKS; do
   DST_RUNS=${SEEDED_RUNS:-20000} DST_VERIF_DIR=/tmp/seeded-scratch-verif sh -c "mkdir -p /tmp/seeded-scratch-verif/replays /tmp/seeded-scratch-verif/evidence; cp /verif/known_findings.jsonl /tmp/seeded-scratch-verif/; ./dst check $c --tier quick" > /tmp/seeded-$c.log 2>&1
